@@ -251,7 +251,10 @@ class FileResource:
                 blob = f.read()
         except FileNotFoundError:
             return ABSENT
-        return json.loads(blob)
+        try:
+            return json.loads(blob)
+        except ValueError:
+            return ("#UNPARSABLE", blob[:120])  # never equal to any expected content
 
     def read_bytes(self):
         try:
@@ -327,7 +330,12 @@ class RedisResource:
 
     def read(self):
         blob = self.client.store.get(self.key)
-        return ABSENT if blob is None else json.loads(blob)
+        if blob is None:
+            return ABSENT
+        try:
+            return json.loads(blob)
+        except ValueError:
+            return ("#UNPARSABLE", blob[:120])
 
     def ext_write(self, value):
         self.client.store[self.key] = dumps(value)
